@@ -70,6 +70,7 @@ class LogicSim(sim.SimOps):
                 _prop_cpu(self.ops, self.c_locs, self.c)
             else:
                 for op, o0, i0, i1, i2, i3 in self.ops[:,:6]:
+                    o0_idx = o0
                     o0, i0, i1, i2, i3 = [self.c_locs[x] for x in (o0, i0, i1, i2, i3)]
                     if op == sim.BUF1: self.c[o0]=self.c[i0]
                     elif op == sim.INV1: self.c[o0] = ~self.c[i0]
@@ -105,9 +106,10 @@ class LogicSim(sim.SimOps):
                     elif op == sim.OAI211:self.c[o0] = ~((self.c[i0] | self.c[i1]) & self.c[i2] & self.c[i3])
                     elif op == sim.MUX21: self.c[o0] = (self.c[i0] & ~self.c[i2]) | (self.c[i1] & self.c[i2])
                     else: print(f'unknown op {op}')
-                    inject_cb(o0, self.s[o0])
+                    if o0_idx < len(self.circuit.lines): inject_cb(self.circuit.lines[o0_idx], self.c[o0])
         elif self.m == 4:
             for op, o0, i0, i1, i2, i3 in self.ops[:,:6]:
+                o0_idx = o0
                 o0, i0, i1, i2, i3 = [self.c_locs[x] for x in (o0, i0, i1, i2, i3)]
                 if op == sim.BUF1: self.c[o0]=self.c[i0]
                 elif op == sim.INV1: logic.bp4v_not(self.c[o0], self.c[i0])
@@ -181,8 +183,10 @@ class LogicSim(sim.SimOps):
                     logic.bp4v_and(self.c[t1], self.c[i1], self.c[i2])
                     logic.bp4v_or(self.c[o0], self.c[t0], self.c[t1])
                 else: print(f'unknown op {op}')
+                if inject_cb is not None and o0_idx < len(self.circuit.lines): inject_cb(self.circuit.lines[o0_idx], self.c[o0])
         else:
             for op, o0, i0, i1, i2, i3 in self.ops[:,:6]:
+                o0_idx = o0
                 o0, i0, i1, i2, i3 = [self.c_locs[x] for x in (o0, i0, i1, i2, i3)]
                 if op == sim.BUF1: self.c[o0]=self.c[i0]
                 elif op == sim.INV1: logic.bp8v_not(self.c[o0], self.c[i0])
@@ -256,7 +260,7 @@ class LogicSim(sim.SimOps):
                     logic.bp8v_and(self.c[t1], self.c[i1], self.c[i2])
                     logic.bp8v_or(self.c[o0], self.c[t0], self.c[t1])
                 else: print(f'unknown op {op}')
-                if inject_cb is not None: inject_cb(o0, self.s[o0])
+                if inject_cb is not None and o0_idx < len(self.circuit.lines): inject_cb(self.circuit.lines[o0_idx], self.c[o0])
 
     def c_to_s(self):
         """Copies (captures) the results of the combinational portion to ``s[1]``.
